@@ -86,6 +86,14 @@ void scenariosArchives(Emitter& e)
 			e.emit("vol-same-stem", "reference", ref::encodeVol(ms).bytes);
 		}
 		{
+			// an upper-case letter, a character between the two letter cases in ASCII, and a lower-case letter in front: every order packs alike
+			std::vector<std::pair<std::string, std::vector<uint8_t>>> fs = { { "Tiles.txt", pay(2, 0x21) }, { "_temp.txt", pay(3, 0x31) }, { "art.txt", pay(1, 0x41) }, { "[x].txt", pay(2, 0x51) } };
+			std::vector<std::string> perm; for (auto& f : fs) { mc::writeFile(f.first, f.second); perm.push_back(f.first); }
+			std::sort(perm.begin(), perm.end());
+			int k = 0;
+			do { Archive::VolFile::CreateArchive("op.vol", perm); e.emit("vol-punctuation-between-the-letter-cases", "perm" + std::to_string(k++), mc::readFile("op.vol")); } while (std::next_permutation(perm.begin(), perm.end()));
+		}
+		{
 			// names that differ only in letter case, in two directories: whatever the listing order, the outcome is the same (a refusal)
 			mc::writeFile("sub/Readme.txt", pay(3, 0x31)); mc::writeFile("README.TXT", pay(4, 0x41));
 			std::vector<std::string> perm = { "README.TXT", "a.txt", "sub/Readme.txt" };
